@@ -422,7 +422,7 @@ class Ctx:
                             (spec, cfg_path, expect_violation, r.status, r.violated, r.out[-2000:]))
             return r
         if r.status != "ok":
-            open(os.path.join(self.out, "tlc-%s.log" % spec), "w").write(r.out)
+            open(os.path.join(self.out, "tlc-%s.log" % os.path.basename(spec)), "w").write(r.out)
             raise Infra("model check %s [%s] not green: %s %s\n%s" %
                         (spec, cfg_path, r.status, r.violated or "", r.out[-3000:]))
         self.states += r.distinct
@@ -437,7 +437,7 @@ class Ctx:
         r = run_tlc(spec, cfg_path, os.path.join(self.out, "tlc"), workers=workers, timeout=timeout,
                     simulate=simulate, depth=depth, seed=seed if seed is not None else self.seed)
         if r.status not in ("ok",):
-            open(os.path.join(self.out, "tlcgen-%s.log" % spec), "w").write(r.out)
+            open(os.path.join(self.out, "tlcgen-%s.log" % os.path.basename(spec)), "w").write(r.out)
             raise Infra("generator %s [%s]: %s\n%s" % (spec, cfg_path, r.status, r.out[-3000:]))
         seen = set()
         res = []
@@ -502,6 +502,10 @@ class Ctx:
         e = dict(os.environ)
         e["VERIF_SEED"] = str(self.seed)
         e["VERIF_TIER"] = self.tier
+        # seaweedfs' glog writes log files into os.TempDir(): keep them under the scratch dir
+        tmpd = os.path.join(self.out, "tmp")
+        os.makedirs(tmpd, exist_ok=True)
+        e["TMPDIR"] = tmpd
         if env:
             e.update(env)
         t0 = time.time()
@@ -581,6 +585,18 @@ class Ctx:
         if mutate is not None:
             self._selftest(trace_spec, execs, base_cfg, constants, kf, timeout, dfs, mutate)
         return len(rejected)
+
+    def judge_advisory(self, trace_spec, trace_path, base_cfg, constants=None, timeout=1800, dfs=False, label="adv"):
+        """Advisory trace validation (layer B against the same recorded executions): executions that
+        the implementation-shaped model cannot explain are reported as model_drift in the evidence,
+        never as violations."""
+        execs = split_execs(trace_path)
+        kf = set(self.kf_open.keys())
+        acc = self._judge_chunk(trace_spec, execs, base_cfg, constants, kf, timeout, dfs, label)
+        unexplained = [i + 1 for i in range(len(execs)) if not acc.get(i + 1)]
+        self.model_drift.append({"spec": trace_spec, "executions": len(execs), "unexplained": len(unexplained),
+                                 "first_unexplained": [json.loads(x) for x in execs[unexplained[0] - 1][:10]] if unexplained else []})
+        return len(unexplained)
 
     def _judge_chunk(self, trace_spec, ch, base_cfg, constants, kf, timeout, dfs, name, single=False):
         tf = os.path.join(self.out, name + ".ndjson")
@@ -701,7 +717,7 @@ def split_execs(trace_path):
             line = line.strip()
             if not line:
                 continue
-            if line.startswith('{"ev":"reset"') or '"ev":"reset"' in line[:40] or '"ev": "reset"' in line[:40]:
+            if '"ev":"reset"' in line or '"ev": "reset"' in line:
                 cur = [line]
                 execs.append(cur)
             else:
